@@ -285,10 +285,14 @@ pub fn k4_datetime_bin() {
     let y: i32 = vk::any();
     let m: u32 = vk::any();
     let dd: u32 = vk::any();
-    let (h, mi, s, us): (u32, u32, u32, u32) = (vk::any(), vk::any(), vk::any(), vk::any());
+    // full nanosecond resolution: what the protocol carries is the microsecond part, sub-microsecond
+    // digits are cut off (a value with 1..999 ns is a value WITHOUT microseconds)
+    let (h, mi, s, ns): (u32, u32, u32, u32) = (vk::any(), vk::any(), vk::any(), vk::any());
     vk::assume(y >= 0 && y <= 9999 && m >= 1 && m <= 12 && dd >= 1 && dd <= 31);
-    vk::assume(h < 24 && mi < 60 && s < 60 && us < 1_000_000);
-    let d = match NaiveDate::from_ymd_opt(y, m, dd).and_then(|d| d.and_hms_micro_opt(h, mi, s, us)) {
+    vk::assume(h < 24 && mi < 60 && s < 60 && ns < 1_000_000_000);
+    let us = ns / 1000;
+    vk_cover!(ns % 1000 != 0 && us == 0, "cover: sub-microsecond value");
+    let d = match NaiveDate::from_ymd_opt(y, m, dd).and_then(|d| d.and_hms_nano_opt(h, mi, s, ns)) {
         Some(d) => d,
         None => return,
     };
@@ -322,9 +326,11 @@ pub fn k4_datetime_bin() {
 #[cfg_attr(kani, kani::unwind(10))]
 pub fn k4_duration_bin() {
     let secs: u64 = vk::any();
-    let us: u32 = vk::any();
-    vk::assume(us < 1_000_000);
-    let d = Duration::new(secs, us * 1000);
+    let ns: u32 = vk::any();
+    vk::assume(ns < 1_000_000_000);
+    let us = ns / 1000;
+    vk_cover!(ns % 1000 != 0 && us == 0, "cover: sub-microsecond duration");
+    let d = Duration::new(secs, ns);
     let c = match any_col() {
         Some(c) => c,
         None => return,
